@@ -208,13 +208,14 @@ func C16(c *core.Ctx) {
 		impls = p.Implementations(fib)
 	}
 	c.Floor("R16.2", "FibStrategy implementations", len(impls), 2)
-	checkReturn := func(fn *ssa.Function, what string) {
+	// returned values of fn, followed into the functions of the package that hand them up
+	// (entry.GetNextHops(), f.collectEntries(keep)): bad is the first leaf that is table storage
+	var leavesOf func(fn *ssa.Function, depth int) (bad string, n int)
+	leavesOf = func(fn *ssa.Function, depth int) (bad string, n int) {
 		c.Funcs[core.FuncName(fn)] = true
-		bad := ""
-		n := 0
 		core.Instrs(fn, func(in ssa.Instruction) {
 			r, ok := in.(*ssa.Return)
-			if !ok || len(r.Results) == 0 {
+			if !ok || len(r.Results) == 0 || in.Block() == fn.Recover {
 				return
 			}
 			for _, l := range sl.Leaves(r.Results[0]) {
@@ -235,6 +236,15 @@ func C16(c *core.Ctx) {
 							bad = "copied by " + id.Name + " after the table lock was released (lockset " + h.String() + ")"
 							continue
 						}
+						if cal := cl.Call.StaticCallee(); cal != nil && cal.Blocks != nil && cal.Pkg == fn.Pkg && cal != fn && depth < 3 && len(l.Via) == 0 {
+							b2, n2 := leavesOf(cal, depth+1)
+							if b2 != "" {
+								bad = b2 + " (handed up by " + core.FuncName(cal) + ")"
+							}
+							if n2 > 0 {
+								continue
+							}
+						}
 					}
 				}
 				// immutable-by-convention: a name slice (never updated in place)
@@ -244,6 +254,10 @@ func C16(c *core.Ctx) {
 				bad = l.Desc()
 			}
 		})
+		return bad, n
+	}
+	checkReturn := func(fn *ssa.Function, what string) {
+		bad, n := leavesOf(fn, 0)
 		c.Decide(bad == "" && n > 0, "R16.2", "returns-no-table-storage:"+what, p.Pos(fn.Pos()), "every returned value is allocated in the call (a copy) or an immutable name", what+" returns table storage ("+bad+") that the table keeps updating under its lock after the caller's read lock is gone: torn / racing reads in forwarding threads and management")
 	}
 	for _, t := range impls {
@@ -393,6 +407,83 @@ func C16(c *core.Ctx) {
 		})
 	}
 	c.Floor("R16.3", "Lock/RLock calls in fw/table", nLocks, 12)
+	// no lock is taken again by the goroutine that holds it: sync.RWMutex is not
+	// reentrant — Lock under Lock/RLock blocks at once, RLock under RLock blocks as soon as
+	// a writer queues up between the two (every reader and writer of the table then hangs)
+	acq := map[*ssa.Function]map[string]bool{}
+	for _, fn := range p.FuncsIn(pkg) {
+		core.Instrs(fn, func(in ssa.Instruction) {
+			if _, isD := in.(*ssa.Defer); isD {
+				return
+			}
+			if name, op := core.LockOp(in); op > 0 {
+				if acq[fn] == nil {
+					acq[fn] = map[string]bool{}
+				}
+				acq[fn][name] = true
+			}
+		})
+	}
+	for changed, iter := true, 0; changed && iter < 10; iter++ {
+		changed = false
+		for _, fn := range p.FuncsIn(pkg) {
+			core.Instrs(fn, func(in ssa.Instruction) {
+				ci, ok := in.(*ssa.Call)
+				if !ok {
+					return
+				}
+				cal := ci.Call.StaticCallee()
+				if cal == nil || cal == fn || acq[cal] == nil {
+					return
+				}
+				for k := range acq[cal] {
+					if acq[fn] == nil {
+						acq[fn] = map[string]bool{}
+					}
+					if !acq[fn][k] {
+						acq[fn][k] = true
+						changed = true
+					}
+				}
+			})
+		}
+	}
+	heldName := func(h core.LockSet, name string) bool {
+		if h["R:"+name] {
+			return true
+		}
+		a := core.LockAlias[name]
+		return a != "" && h["R:"+a]
+	}
+	nAcqSites := 0
+	for _, fn := range p.FuncsIn(pkg) {
+		core.Instrs(fn, func(in ssa.Instruction) {
+			ci, ok := in.(*ssa.Call)
+			if !ok {
+				return
+			}
+			h := held[fn][in]
+			if name, op := core.LockOp(in); op > 0 {
+				nAcqSites++
+				if heldName(h, name) {
+					c.Viol("R16.3", fmt.Sprintf("no-reacquire:%s:%s", core.FuncName(fn), name), c.Pos(in), core.FuncName(fn)+" takes "+name+" while it already holds it (lockset "+h.String()+"): sync.RWMutex is not reentrant, the table deadlocks")
+				}
+				return
+			}
+			cal := ci.Call.StaticCallee()
+			if cal == nil || acq[cal] == nil {
+				return
+			}
+			for name := range acq[cal] {
+				nAcqSites++
+				if heldName(h, name) {
+					c.Viol("R16.3", fmt.Sprintf("no-reacquire:%s:%s:via=%s", core.FuncName(fn), name, core.FuncName(cal)), c.Pos(in), core.FuncName(fn)+" calls "+core.FuncName(cal)+", which takes "+name+", while it already holds that lock (lockset "+h.String()+"): sync.RWMutex is not reentrant — a writer queued between the two acquisitions blocks every reader and writer of the table for good")
+				}
+			}
+		})
+	}
+	c.Ok("R16.3", "no-reacquire", "-", fmt.Sprintf("%d acquisition sites (lock calls and calls of functions that take a table lock) examined: none runs with the same lock already held", nAcqSites))
+	c.Floor("R16.3", "acquisition sites", nAcqSites, 12)
 	// lock order: functions of the FIB files never call into the RIB
 	orderBad := ""
 	for _, fn := range p.FuncsIn(pkg) {
